@@ -1,7 +1,8 @@
 """Script generator for C05 (LUDecomposition.h, MatrixTools::inv / det).
 
 Every case: `case <tag> <storage of A> <storage of B> <storage of X>` followed by
-  lu m n A | solve mb nx B | solvev mb b | inv m n A | det m n A | dett n A | detmul n A B
+  lu m n A | solve mb nx B | solvev mb b | inv m n A | invip m n A | det m n A | dett n A | detmul n A B
+  | xset r c X | xvset k x
 Matrix families (n = 1..10): integer entries in [-9,9]; dyadic entries (all arithmetic exact, so
 exact zero pivots occur); permuted triangular; rank-deficient (integer products of thin factors,
 repeated / zero rows and columns); prescribed singular values (condition number 1..1e6 and
@@ -171,6 +172,8 @@ def square_case(rng, tag, A, integer, ops_extra=True):
             if rng.random() < 0.4:
                 ops.append(xset_line(rng, n, n))
             ops.append("inv " + mat(A))
+        if rng.random() < 0.15:
+            ops.append("invip " + mat(A))                    # in-place inverse: inv(A, A)
         if r > 0.9:
             nx = rng.randint(1, 4)                           # one more solve after everything else
             ops.append("solve " + mat(rhs(rng, n, nx, integer)))
@@ -279,8 +282,11 @@ def coverage_extra(cases, answers):
                         zero_piv += 1
             if t[0] == "lu":
                 nlu = int(t[1]) if t[1] == t[2] else None
-            if t[0] == "xset":
+            if t[0] in ("xset", "invip"):
                 xs = (int(t[1]), int(t[2]))
+                if t[0] == "invip" and r.startswith("minD"):
+                    u = r.split(";")[1].split()
+                    xs = (int(u[1]), int(u[2]))
             if t[0] == "xvset":
                 xl = int(t[1])
             want = None
@@ -306,7 +312,7 @@ def coverage_extra(cases, answers):
                     xl = int(r.split(";")[1].split()[1])
             if t[0] == "solve":
                 nxs[t[2]] = nxs.get(t[2], 0) + 1
-            if t[0] in ("solve", "solvev", "inv"):
+            if t[0] in ("solve", "solvev", "inv", "invip"):
                 if r == "exc:zerodiv": zerodiv += 1
                 elif r.startswith("minD"): solved += 1
             if r.startswith("crash"): ub += 1
